@@ -134,7 +134,9 @@ static void sec_par(void)
                 if (n % 4 == 1) memset(twa, 0, sizeof(twa));
                 else if (n % 4 == 2) { memset(twa, 0, sizeof(twa)); for (i2 = 0; i2 <= 25; ++i2) twa[i2 * 8 + 7] = (uint8_t)i2; }
                 else if (n % 4 == 3) { memset(twa, 0, sizeof(twa)); for (i2 = 0; i2 <= 25; ++i2) if (i2 % 8 == 5 || i2 == n - 1) twa[i2 * 8 + 7] = (uint8_t)(1 + i2 / 8); }
-                r &= par_crypt((Cipher)c, &o, sbuf_out, sbuf_in, twa, (size_t)(n * bs), dir);
+                /* the output (and for odd counts the input) sits at an odd offset: results may not depend on placement in any configuration */
+                r &= par_crypt((Cipher)c, &o, sbuf_out + 3, sbuf_in + ((n & 1) ? 5 : 0), twa, (size_t)(n * bs), dir);
+                memmove(sbuf_out, sbuf_out + 3, (size_t)(n * bs));
             }
             par_cleanup((Cipher)c, &o);
             ++g_cnt.evaluations;
